@@ -78,12 +78,13 @@ class Labels:
     """labels = Labels(fn, region_blocks, seed) ; seed(place) -> iterable of labels for
     a place that is read (called for every place mentioned on a right-hand side)."""
 
-    def __init__(self, fn, region, seed, param_labels=None, opaque=(), facts=None):
+    def __init__(self, fn, region, seed, param_labels=None, opaque=(), facts=None, call_labels=None):
         self.fn = fn
         self.region = set(region) if region is not None else None
         self.seed = seed
         self.lab = {}
         self.opaque = tuple(opaque)
+        self.call_labels = call_labels
         if param_labels:
             for l, ls in param_labels.items():
                 self.lab[l] = set(ls)
@@ -139,6 +140,10 @@ class Labels:
                         new |= self.operand_labels(o)
                     if c.endswith(self.opaque):
                         new = set()
+                    if self.call_labels is not None:
+                        extra = self.call_labels(c, t)
+                        if extra:
+                            new |= set(extra)
                     if new:
                         changed |= self._add(t[3][0], new)
                         # side effect through &mut arguments (push / insert / extend ...)
